@@ -43,7 +43,8 @@ def random_walk(dfa, rng, length, p_follow=0.85):
                 if not t.is_fallthrough:
                     out.append(rng.choice(alpha) if rng.random() < 0.7 else rng.randrange(256))
                 continue
-            out.append(rng.choice(bs))
+            # the ends of a range are where off-by-one errors live
+            out.append(rng.choice([min(bs), max(bs)]) if rng.random() < 0.4 else rng.choice(bs))
             st = t.target if t.target in dfa.states else dfa.starting_state
         else:
             b = rng.choice(alpha) if rng.random() < 0.7 else rng.randrange(256)
@@ -80,3 +81,8 @@ def chunkings(data, rng, k):
             seen.add(t)
             out.append(r)
     return out
+
+
+def extra(prog):
+    """Directed inputs a program brings along (boundary programs: fill a buffer exactly, pass it)."""
+    return [bytes.fromhex(x) if isinstance(x, str) else bytes(x) for x in prog.get("inputs", [])]
